@@ -394,6 +394,7 @@ def c19(tier):
     sm.sm3(P, C)
     sm.sm4(P, C)
     sm.sm6(P, C)
+    sm.sm7(P, C)
     # the model reads the per-dimension orders through readOrder: ORDERn must land in order[n] there as in the reader
     fs.fs8(P, C)
     n = sm.ts3a(P, C)
@@ -440,6 +441,7 @@ def c17(tier):
               assumptions=["slicemultiply computes the mode-i product (its internals are index arithmetic over runtime shapes, not analysed)"])
     P = core.load(tier=tier, extra_units=selftest.UNITS)
     ge.run(P, C)
+    ge.ge4(P, C)
     # a slice multiplication that failed is not silently skipped (the array would not be the grid)
     ed.ed4(P, C)
     cw.cw1(P, C, only=("splinetable_grideval",))
